@@ -254,6 +254,7 @@ func runFault(sc core.Scenario, r3, r4 *core.R) {
 		fr.issue("echo", "window")
 		fr.issue("echoR", "window")
 		fr.issue("big", "window")
+		fr.issue("note", "window")
 		pol.WaitPoint("ws.req.accepted", 1, before+2, 200*time.Millisecond)
 	}
 	gate.Release()
